@@ -62,6 +62,7 @@ var stmtFiles = []string{
 	"request/address.go",
 	"jsonrpc2/method.go",
 	"jsonrpc2/types.go",
+	"jsonrpc2/codecs.go",
 }
 
 type budget struct {
